@@ -14,9 +14,10 @@ TRUSTED = ["Model/Session.v (stores as functions of frames, results as symbolic 
            "operation, the implementation's stores with the values a fresh object produces for the model's token (bitwise equality)",
            "the harness's token bookkeeping is checked against Model/Session.v inside Coq for every history"]
 ASSUMPTIONS = ["solvers and circle fits are deterministic functions of their inputs (checked: fresh objects reproduce bitwise)"]
-TESTED_NOT_PROVED = ["write-back alignment (i-th reported tension = tension stored on the i-th internal interface and its mesh edges; "
-                     "external interfaces at zero; tension table = internal interfaces in order) is evaluated by the oracle after every solve"]
-IMPORTS = "From Forsys Require Import Model.CaseUtil Model.Session.\n"
+TESTED_NOT_PROVED = ["the write-back onto the mesh edges is proved for the model (C10_used_edges_carry_their_entry, C10_excluded_edges_are_zero, "
+                     "C10_other_edges_unchanged, C10_write_back_forgets_history) and tied exactly to the implementation on ten solves per run; the interface-level "
+                     "value (mean of equal mesh-edge values), external interfaces at zero and the tension table = internal interfaces in order are evaluated by the oracle after every solve"]
+IMPORTS = "From Forsys Require Import Model.CaseUtil Model.PyList Model.Resample Model.Session Model.WriteBack.\n"
 
 BUILD_ARGS = [
     {},
@@ -138,6 +139,37 @@ def fresh_raises(fresh, op, tk):
     return fresh.cache[key]
 
 
+def write_back_case(f, t, pre_t, exprs, replay, step):
+    """Model/WriteBack.v against ForceMatrix.solve: the tensions of all mesh edges of frame t after the solve, from the tensions before it, the
+    internal interfaces, the interfaces in the system and the reported solution"""
+    fr = f.frames[t]
+    fmx = f.force_matrices[t]
+    post = {eid: x.tension for eid, x in fr.edges.items()}
+    if len(post) > 600 or not all(isinstance(x, (int, float)) and not isinstance(x, bool) for x in list(pre_t.values()) + list(post.values())):
+        return
+    used = [[int(x) for x in el] for el in fmx.big_edges_to_use]
+    internal = [([int(x) for x in be.get_vertices_ids()], [int(x) for x in be.edges]) for be in fr.internal_big_edges]
+    ivs = [iv for iv, _ in internal]
+    got = f.forces[t]
+    try:
+        xs = [float(got[ivs.index(el)]) for el in used]
+    except (ValueError, KeyError):
+        return
+    tbl = []
+    for el in used:
+        for a, b in zip(el, el[1:]):
+            # the same expression as in the source: which element of the set intersection comes first is CPython's business
+            tbl.append((a, b, int(list(set(fr.vertices[a].ownEdges) & set(fr.vertices[b].ownEdges))[0])))
+    ids = sorted(post)
+    e = ("let tbl := [" + "; ".join(f"(({C.zlit(a)}, {C.zlit(b)}), {C.zlit(c)})" for a, b, c in tbl) + "] in "
+         "let pick := fun p : Z * Z => match find (fun kv => Z.eqb (fst (fst kv)) (fst p) && Z.eqb (snd (fst kv)) (snd p)) tbl with Some kv => snd kv | None => (-1)%Z end in "
+         "let W := write_back pick 0%float (-1)%float [" + "; ".join(f"({C.zlist(a)}, {C.zlist(b)})" for a, b in internal) + "] " + C.zlistlist(used) +
+         " [" + "; ".join(C.flit(x) for x in xs) + "] (assoc_def 0%float [" + "; ".join(f"({C.zlit(k)}, {C.flit(v)})" for k, v in sorted(pre_t.items())) + "]) in "
+         "listF_close 0%float (map W " + C.zlist(ids) + ") [" + "; ".join(C.flit(post[k]) for k in ids) + "]")
+    exprs.append((e, {"what": "write-back", "frame": t, "step": step, "history": replay["history"], "label": replay["label"],
+                      "used": len(used), "internal": len(internal)}))
+
+
 def run_history(res, specs, times, hist, exprs, label):
     n = len(specs)
     frames = {t: impl.frame(s, t, times[t]) for t, s in enumerate(specs)}
@@ -151,6 +183,9 @@ def run_history(res, specs, times, hist, exprs, label):
     for step, o in enumerate(hist):
         k = o[0]
         err = None
+        pre_t = None
+        if k == "SolveS" and o[1] in fm and sum(1 for _, rp_ in exprs if isinstance(rp_, dict) and rp_.get("what") == "write-back") < 10:
+            pre_t = {eid: x.tension for eid, x in f.frames[o[1]].edges.items()}
         try:
             with impl.quiet(), warnings.catch_warnings():
                 warnings.simplefilter("ignore")
@@ -176,6 +211,8 @@ def run_history(res, specs, times, hist, exprs, label):
                 bad.append(f"step {step} {o}: raised {err} although a fresh object accepts the same call")
             hist = hist[:step]
             break
+        if pre_t is not None and err is None:
+            write_back_case(f, o[1], pre_t, exprs, replay, step)
         # mirror
         if k == "BuildF":
             fm[o[1]] = o[2]
@@ -324,10 +361,15 @@ def run(res, tier, seed):
     exprs = []
     for specs, times, hist, label in cases(rng, tier):
         run_history(res, specs, times, hist, exprs, label)
-    bools, outs = C.coq_eval_bools("C10", IMPORTS, [e for e, _ in exprs], chunk=30)
+    bools, outs = C.coq_eval_bools("C10", IMPORTS, [e for e, _ in exprs], chunk=8)
+    res.count("write-back correspondences", sum(1 for _, rp in exprs if rp.get("what") == "write-back"))
     for (e, rp), b in zip(exprs, bools):
         res.traces += 1
         if b is not True:
+            if rp.get("what") == "write-back":
+                res.fail("correspondence", "mesh-edge tensions after the solve != Model/WriteBack.v" if b is False else "case did not evaluate",
+                         {"correspondence": "Model/WriteBack.v vs ForceMatrix.solve (write-back onto the mesh edges)", "case": rp})
+                continue
             res.fail("correspondence", "token bookkeeping != Model/Session.v" if b is False else "case did not evaluate",
                      {"correspondence": "Model/Session.v vs harness mirror", "case": {"history": rp["history"]}})
 
